@@ -4,12 +4,12 @@
 package main
 
 import (
-	"strings"
 	"flag"
 	"fmt"
 	"os"
 	"path/filepath"
 	"runtime"
+	"strings"
 	"sync"
 	"sync/atomic"
 
